@@ -2,24 +2,57 @@
 use super::fields::{Field, RecInfo};
 use serde_json::{json, Value};
 
-pub const VCS: [&str; 13] = ["zero", "one", "max", "max-1", "hi7f", "hi80", "inc", "dec", "dbl", "filelen", "tablelen", "self", "parent"];
+pub const VCS: [&str; 23] = [
+    "zero", "one", "max", "max-1", "hi7f", "hi80", "inc", "dec", "dbl", "filelen", "tablelen", "self", "parent",
+    "eqprev", "eqnext", "prev+1", "next-1", "prev-1", "next+1", "uwrap-prev", "uwrap-next", "swrap-prev", "swrap-next",
+];
+/// FaultModel!PrevClasses / NextClasses: the new value is a function of the previous / next element of the array
+pub const PREV_CLASSES: [&str; 5] = ["eqprev", "prev+1", "prev-1", "uwrap-prev", "swrap-prev"];
+pub const NEXT_CLASSES: [&str; 5] = ["eqnext", "next-1", "next+1", "uwrap-next", "swrap-next"];
 
 /// FaultModel!RefClasses / RefRoles / HasRef
 pub fn is_ref_class(vc: &str) -> bool {
     vc == "self" || vc == "parent"
 }
+pub fn is_prev_class(vc: &str) -> bool {
+    PREV_CLASSES.contains(&vc)
+}
+pub fn is_next_class(vc: &str) -> bool {
+    NEXT_CLASSES.contains(&vc)
+}
+/// FaultModel!RelClasses
+pub fn is_rel_class(vc: &str) -> bool {
+    is_prev_class(vc) || is_next_class(vc)
+}
+/// FaultModel!ClassApplies
 pub fn class_applies(vc: &str, role: &str) -> bool {
-    !is_ref_class(vc) || role == "offset" || role == "index"
+    (!is_ref_class(vc) || role == "offset" || role == "index") && (!is_rel_class(vc) || role != "version")
+}
+/// FaultModel!HasRel on the positions the walk recorded (the bytes are read when the fault is applied)
+pub fn has_sib(vc: &str, po: i64, no: i64) -> bool {
+    (!is_prev_class(vc) || po >= 0) && (!is_next_class(vc) || no >= 0)
+}
+/// FaultModel!Sibling: the bytes of a sibling element as they stand in `buf`
+pub fn sibling(buf: &[u8], p: i64, w: u8) -> Option<u64> {
+    if p < 0 {
+        None
+    } else {
+        rd(buf, p as usize, w)
+    }
 }
 pub fn has_ref(vc: &str, sv: i64, pv: i64) -> bool {
     (vc != "self" || sv >= 0) && (vc != "parent" || pv >= 0)
 }
 
 /// The value a class names for a field of `w` bytes that held `old` (FaultModel!NewValue); `sv` /
-/// `pv` = the references of the field (>= 0 when the class is "self" / "parent").
-pub fn new_value(vc: &str, old: u64, w: u8, flen: u64, tlen: u64, sv: i64, pv: i64) -> u64 {
+/// `pv` = the references of the field (>= 0 when the class is "self" / "parent"); `pb` / `nb` = the
+/// previous / next element of the array (there when the class is a relational one on that side).
+#[allow(clippy::too_many_arguments)]
+pub fn new_value(vc: &str, old: u64, w: u8, flen: u64, tlen: u64, sv: i64, pv: i64, pb: Option<u64>, nb: Option<u64>) -> u64 {
     let bits = 8 * w as u32;
     let mask: u64 = if bits >= 64 { u64::MAX } else { (1u64 << bits) - 1 };
+    let hi80 = (mask >> 1) + 1;
+    let (p, n) = (pb.unwrap_or(0), nb.unwrap_or(0));
     let v = match vc {
         "zero" => 0,
         "one" => 1,
@@ -34,6 +67,16 @@ pub fn new_value(vc: &str, old: u64, w: u8, flen: u64, tlen: u64, sv: i64, pv: i
         "tablelen" => tlen,
         "self" => sv.max(0) as u64,
         "parent" => pv.max(0) as u64,
+        "eqprev" => p,
+        "eqnext" => n,
+        "prev+1" => p.wrapping_add(1),
+        "next-1" => n.wrapping_sub(1),
+        "prev-1" => p.wrapping_sub(1),
+        "next+1" => n.wrapping_add(1),
+        "uwrap-prev" => p.wrapping_neg(),
+        "uwrap-next" => n.wrapping_neg(),
+        "swrap-prev" => hi80.wrapping_sub(p),
+        "swrap-next" => hi80.wrapping_sub(n),
         other => panic!("value class {}", other),
     };
     v & mask
@@ -85,9 +128,11 @@ pub fn apply(buf: &mut Vec<u8>, f: &CF, fields: &[Field], recs: &[RecInfo]) -> A
             let fd = &fields[*fi];
             let vc = VCS[*vi];
             let target = if fd.level == "dir" && ["sfnt", "ttcf", "wOFF", "wOF2"].contains(&fd.tbl.as_str()) { "*".to_string() } else { fd.tbl.clone() };
-            match rd(buf, fd.off, fd.w).filter(|_| has_ref(vc, fd.selfv, fd.parentv)) {
+            let (pb, nb) = (sibling(buf, fd.prevo, fd.w), sibling(buf, fd.nexto, fd.w));
+            let has_rel = (!is_prev_class(vc) || pb.is_some()) && (!is_next_class(vc) || nb.is_some());
+            match rd(buf, fd.off, fd.w).filter(|_| has_ref(vc, fd.selfv, fd.parentv) && has_rel) {
                 Some(old) => {
-                    let new = new_value(vc, old, fd.w, flen, fd.tlen as u64, fd.selfv, fd.parentv);
+                    let new = new_value(vc, old, fd.w, flen, fd.tlen as u64, fd.selfv, fd.parentv, pb, nb);
                     wr(buf, fd.off, fd.w, new);
                     Applied {
                         desc: json!(["Overwrite", fd.role, vc, fd.level, fd.tbl, fd.name, fd.off, fd.w, hex64(old, fd.w), hex64(new, fd.w)]),
@@ -173,9 +218,11 @@ pub fn apply_model_fault(buf: &mut Vec<u8>, f: &Value) {
             let (off, w) = (u("off"), u("w") as u8);
             let (sv, pv) = (f["sv"].as_i64().unwrap_or(-1), f["pv"].as_i64().unwrap_or(-1));
             let vc = f["vc"].as_str().unwrap();
-            if let Some(old) = rd(buf, off, w).filter(|_| has_ref(vc, sv, pv)) {
+            let (pb, nb) = (sibling(buf, f["po"].as_i64().unwrap_or(-1), w), sibling(buf, f["no"].as_i64().unwrap_or(-1), w));
+            let has_rel = (!is_prev_class(vc) || pb.is_some()) && (!is_next_class(vc) || nb.is_some());
+            if let Some(old) = rd(buf, off, w).filter(|_| has_ref(vc, sv, pv) && has_rel) {
                 let flen = buf.len() as u64;
-                wr(buf, off, w, new_value(vc, old, w, flen, u("tlen") as u64, sv, pv));
+                wr(buf, off, w, new_value(vc, old, w, flen, u("tlen") as u64, sv, pv, pb, nb));
             }
         }
         "Truncate" => buf.truncate(u("at")),
